@@ -349,8 +349,12 @@ def run(tier, seed, replay_file=None):
         if not ok2:
             o.violations.append(Violation(clause="output:" + c2, case=case, features=["shape_" + case["shape"]], detail=regs[i]))
     o.distinct_nontrivial = nt
-    if not replay_file:
-        suite_traces(o, tier, traces)
+    if not replay_file and any(traces):
+        suite_traces(o, tier, [t for t in traces if t])
+    elif not replay_file:
+        # (the model itself was refuted for every shape: no histories to replay - the model-level violations above are the verdict)
+        o.required_cover = []
+        return o
     o.required_cover = ["skip_done", "enter", "apply_begin", "exit", "call_end", "out_to_proto", "out_netlist", "out_newparent", "out_add_after_elab",
                         "suite_events", "tampered_traces_rejected"]
     for i in rnd.sample(range(len(cases)), 2):
